@@ -530,6 +530,22 @@ func c155b(c *an.Ctx, p *an.Prog, x *fsx, rule string) {
 					bad = append(bad, "success returned although the rename may have failed (path "+s.BlockPath()+")")
 				}
 			}
+			// nothing (deferred cleanups included) unlinks the final name again on a successful exit
+			if k == "success" {
+				dst := s.Events[idx].Args[1]
+				all := expandedEvents(s)
+				pos := indexOfInstr(all, ren)
+				for i, e := range all {
+					if i <= pos || e.Kind != "call" {
+						continue
+					}
+					if e.Callee == "os.Remove" || e.Callee == "os.RemoveAll" {
+						if len(e.Args) == 1 && (e.Args[0].K == dst.K || x.shapeOf(s, e.Args[0], 0).Kind == "user") {
+							bad = append(bad, "the final name is removed again after the successful rename on a succeeding exit (path "+s.BlockPath()+"): the acknowledged record is gone")
+						}
+					}
+				}
+			}
 		})
 		if !isCommit {
 			continue
